@@ -1,6 +1,7 @@
-(* C09/ProofsConv.v — _convolve_2d_numpy: kernel-weighted sum over the full window,
-   NaN exactly where the window leaves the raster (or covers a NaN cell). *)
-Require Import Base.Prelude C09.Model C09.Proofs.
+(* C09/ProofsConv.v — _convolve_2d_numpy: for EVERY arithmetic instance the kernel-weighted sum over the
+   full window (row-major, float64 accumulator, rounded once into the float32 output) and NaN where the
+   window leaves the raster; exact instance: NaN exactly there or where the window covers a NaN. *)
+Require Import Base.Prelude C09.Arith C09.Model C09.Proofs.
 From Coq Require Import QArith.
 Open Scope Z_scope.
 
@@ -26,13 +27,15 @@ Proof.
   replace s2 with (s2 + 0) at 1 by lia. now rewrite fold_ziota_shift.
 Qed.
 
-(* the property's value: sum over the FULL window, row-major, NaN-propagating *)
-Definition wsum (data : grid xq) (kernel : grid Q) (wkx wky i j : Z) : xq :=
-  loop2 (fun num a b => xadd num (xscale (get2 0%Q kernel a b) (get2 None data (i + a - wkx) (j + b - wky))))
-        (zrange 0 (2 * wkx + 1)) (zrange 0 (2 * wky + 1)) (Some 0%Q).
+(* the property's value: sum over the FULL window, row-major, in the float64 accumulator *)
+Definition wsum (A : Arith) (data : grid (T32 A)) (kernel : grid (T64 A)) (wkx wky i j : Z) : T64 A :=
+  loop2 (fun num a b => dadd A num (dmul A (get2 (dnan A) kernel a b)
+                                         (widen A (get2 (snan A) data (i + a - wkx) (j + b - wky)))))
+        (zrange 0 (2 * wkx + 1)) (zrange 0 (2 * wky + 1)) (dofZ A 0).
 
 Section ConvSpec.
-  Variables (data : grid xq) (kernel : grid Q) (nx ny wkx wky : Z).
+  Variable A : Arith.
+  Variables (data : grid (T32 A)) (kernel : grid (T64 A)) (nx ny wkx wky : Z).
   Hypothesis Hwkx : 0 <= wkx.
   Hypothesis Hwky : 0 <= wky.
   Hypothesis Hdata : wf data nx ny.
@@ -41,8 +44,8 @@ Section ConvSpec.
 
   Lemma conv_num_interior i j :
     wkx <= i < nx - wkx -> wky <= j < ny - wky ->
-    conv_num data kernel wkx wky i j (Z.max (i - wkx) 0) (Z.min (i + wkx + 1) nx)
-             (Z.max (j - wky) 0) (Z.min (j + wky + 1) ny) = wsum data kernel wkx wky i j.
+    conv_num A data kernel wkx wky i j (Z.max (i - wkx) 0) (Z.min (i + wkx + 1) nx)
+             (Z.max (j - wky) 0) (Z.min (j + wky + 1) ny) = wsum A data kernel wkx wky i j.
   Proof.
     intros Hi Hj. unfold conv_num, wsum, zrange.
     replace (Z.max (i - wkx) 0) with (i - wkx) by lia.
@@ -60,19 +63,19 @@ Section ConvSpec.
     reflexivity.
   Qed.
 
-  Lemma conv_step_wf out i j : wf out nx ny -> wf (conv_step data kernel nx ny wkx wky out i j) nx ny.
+  Lemma conv_step_wf out i j : wf out nx ny -> wf (conv_step A data kernel nx ny wkx wky out i j) nx ny.
   Proof. intros. unfold conv_step. cbv zeta. now apply wf_set2. Qed.
 
   Lemma conv_step_get out i j a b :
     wf out nx ny -> 0 <= a < nx -> 0 <= b < ny ->
-    get2 None (conv_step data kernel nx ny wkx wky out i j) a b =
+    get2 (snan A) (conv_step A data kernel nx ny wkx wky out i j) a b =
     if (a =? i - 0) && (b =? j - 0) && true
-    then conv_num data kernel wkx wky i j (Z.max (i - wkx) 0) (Z.min (i + wkx + 1) nx)
-                  (Z.max (j - wky) 0) (Z.min (j + wky + 1) ny)
-    else get2 None out a b.
+    then narrow A (conv_num A data kernel wkx wky i j (Z.max (i - wkx) 0) (Z.min (i + wkx + 1) nx)
+                  (Z.max (j - wky) 0) (Z.min (j + wky + 1) ny))
+    else get2 (snan A) out a b.
   Proof.
     intros [L C] Ha Hb. unfold conv_step. cbv zeta. rewrite get2_set2.
-    unfold xq in *. rewrite andb_true_r.
+    rewrite andb_true_r.
     destruct (a =? i) eqn:Ea; destruct (a =? i - 0) eqn:Ea'; try lia; cbn [andb]; [|reflexivity].
     destruct (b =? j) eqn:Eb; destruct (b =? j - 0) eqn:Eb'; try lia; cbn [andb]; [|reflexivity].
     assert (a = i) by lia; assert (b = j) by lia; subst a b.
@@ -82,22 +85,22 @@ Section ConvSpec.
   Qed.
 
   Theorem conv_spec i j : 0 <= i < nx -> 0 <= j < ny ->
-    get2 None (convolve_2d data kernel) i j =
+    get2 (snan A) (convolve_2d A data kernel) i j =
     if (wkx <=? i) && (i <? nx - wkx) && (wky <=? j) && (j <? ny - wky)
-    then wsum data kernel wkx wky i j else None.
+    then narrow A (wsum A data kernel wkx wky i j) else snan A.
   Proof.
     intros Hi Hj.
     destruct Hdata as [L1 C1], Hkernel as [L2 C2].
     unfold convolve_2d, nrows, ncols. rewrite L1, L2, C1, C2 by lia.
     replace ((2 * wkx + 1) / 2) with wkx by lia. replace ((2 * wky + 1) / 2) with wky by lia.
     assert (Hny : 0 <= ny) by lia.
-    destruct (loop2_stores None nx ny (conv_step data kernel nx ny wkx wky) 0 0
+    destruct (loop2_stores (snan A) nx ny (conv_step A data kernel nx ny wkx wky) 0 0
                 (fun _ _ => true)
-                (fun i j => conv_num data kernel wkx wky i j (Z.max (i - wkx) 0) (Z.min (i + wkx + 1) nx)
-                                     (Z.max (j - wky) 0) (Z.min (j + wky + 1) ny))
+                (fun i j => narrow A (conv_num A data kernel wkx wky i j (Z.max (i - wkx) 0) (Z.min (i + wkx + 1) nx)
+                                     (Z.max (j - wky) 0) (Z.min (j + wky + 1) ny)))
                 conv_step_wf conv_step_get
                 wky (Z.to_nat (ny - wky - wky)) (Z.to_nat (nx - wkx - wkx)) wkx
-                (fill2 None nx ny) (wf_fill2 None nx ny (Z.lt_le_incl _ _ Hnx) Hny)) as [_ G].
+                (fill2 (snan A) nx ny) (wf_fill2 (snan A) nx ny (Z.lt_le_incl _ _ Hnx) Hny)) as [_ G].
     unfold zrange. rewrite G by assumption.
     rewrite get2_fill2 by assumption. rewrite !Z.add_0_r, andb_true_r.
     destruct (wkx <=? i) eqn:E1; cbn [andb]; [|reflexivity].
@@ -106,51 +109,48 @@ Section ConvSpec.
     destruct (wky <=? j) eqn:E3; cbn [andb]; [|reflexivity].
     destruct (j <? ny - wky) eqn:E4; destruct (j <? wky + Z.of_nat (Z.to_nat (ny - wky - wky))) eqn:E4';
       try lia; [|reflexivity].
-    apply conv_num_interior; lia.
+    f_equal. apply conv_num_interior; lia.
   Qed.
-  Lemma conv_wf : 0 <= ny -> wf (convolve_2d data kernel) nx ny.
+  Lemma conv_wf : 0 <= ny -> wf (convolve_2d A data kernel) nx ny.
   Proof.
     intros Hny.
     destruct Hdata as [L1 C1], Hkernel as [L2 C2].
     unfold convolve_2d, nrows, ncols. rewrite L1, L2, C1, C2 by lia.
     replace ((2 * wkx + 1) / 2) with wkx by lia. replace ((2 * wky + 1) / 2) with wky by lia.
-    destruct (loop2_stores None nx ny (conv_step data kernel nx ny wkx wky) 0 0
+    destruct (loop2_stores (snan A) nx ny (conv_step A data kernel nx ny wkx wky) 0 0
                 (fun _ _ => true)
-                (fun i j => conv_num data kernel wkx wky i j (Z.max (i - wkx) 0) (Z.min (i + wkx + 1) nx)
-                                     (Z.max (j - wky) 0) (Z.min (j + wky + 1) ny))
+                (fun i j => narrow A (conv_num A data kernel wkx wky i j (Z.max (i - wkx) 0) (Z.min (i + wkx + 1) nx)
+                                     (Z.max (j - wky) 0) (Z.min (j + wky + 1) ny)))
                 conv_step_wf conv_step_get
                 wky (Z.to_nat (ny - wky - wky)) (Z.to_nat (nx - wkx - wkx)) wkx
-                (fill2 None nx ny) (wf_fill2 None nx ny (Z.lt_le_incl _ _ Hnx) Hny)) as [W _].
+                (fill2 (snan A) nx ny) (wf_fill2 (snan A) nx ny (Z.lt_le_incl _ _ Hnx) Hny)) as [W _].
     exact W.
   Qed.
 End ConvSpec.
 
-(* ---- NaN propagation of the weighted sum ---- *)
-Lemma xadd_none a b : xadd a b = None <-> a = None \/ b = None.
+(* ---- NaN propagation of the weighted sum (exact instance) ---- *)
+Lemma olift2_none f a b : olift2 f a b = None <-> a = None \/ b = None.
 Proof. destruct a, b; cbn; split; intros; try discriminate; auto; destruct H; discriminate. Qed.
 
-Lemma xscale_none k v : xscale k v = None <-> v = None.
-Proof. destruct v; cbn; split; intros; try discriminate; auto. Qed.
-
-Lemma fold_xadd_none {A} (t : A -> xq) l : forall s,
-  fold_left (fun num b => xadd num (t b)) l s = None <-> s = None \/ exists b, In b l /\ t b = None.
+Lemma fold_oadd_none {X} (t : X -> xq) l : forall s,
+  fold_left (fun num b => olift2 Qplus num (t b)) l s = None <-> s = None \/ exists b, In b l /\ t b = None.
 Proof.
   induction l as [|b l IH]; intros s; cbn [fold_left].
   - split; [auto|]. intros [H|(b & [] & _)]; exact H.
-  - rewrite IH, xadd_none. split.
+  - rewrite IH, olift2_none. split.
     + intros [[H|H]|(b' & Hin & Hb')]; [left; exact H|right; exists b; split; [left; reflexivity|exact H]|].
       right; exists b'; split; [right; exact Hin|exact Hb'].
     + intros [H|(b' & [<-|Hin] & Hb')]; [left; left; exact H|left; right; exact Hb'|].
       right; exists b'; split; assumption.
 Qed.
 
-Lemma loop2_xadd_none (t : Z -> Z -> xq) xs ys : forall s,
-  loop2 (fun num a b => xadd num (t a b)) ys xs s = None <->
+Lemma loop2_oadd_none (t : Z -> Z -> xq) xs ys : forall s,
+  loop2 (fun num a b => olift2 Qplus num (t a b)) ys xs s = None <->
   s = None \/ exists a b, In a ys /\ In b xs /\ t a b = None.
 Proof.
   unfold loop2. induction ys as [|a ys IH]; intros s; cbn [fold_left].
   - split; [auto|]. intros [H|(a & b & [] & _)]; exact H.
-  - rewrite IH, (fold_xadd_none (t a)). split.
+  - rewrite IH, (fold_oadd_none (t a)). split.
     + intros [[H|(b & Hb & Hn)]|(a' & b & Ha & Hb & Hn)].
       * left; exact H.
       * right; exists a, b; repeat split; [left; reflexivity|exact Hb|exact Hn].
@@ -161,16 +161,77 @@ Proof.
       * right; exists a', b; repeat split; assumption.
 Qed.
 
-(* the weighted sum is NaN iff some cell of the full window is NaN (even under a zero weight) *)
-Lemma wsum_none data kernel wkx wky i j :
-  wsum data kernel wkx wky i j = None <->
-  exists a b, 0 <= a < 2 * wkx + 1 /\ 0 <= b < 2 * wky + 1 /\ get2 None data (i + a - wkx) (j + b - wky) = None.
+(* the weighted sum is NaN iff some cell of the full window (even under a zero weight) or some weight is NaN *)
+Lemma wsum_none qs data kernel wkx wky i j :
+  wsum (ExactArith qs) data kernel wkx wky i j = None <->
+  exists a b, 0 <= a < 2 * wkx + 1 /\ 0 <= b < 2 * wky + 1 /\
+              (get2 None kernel a b = None \/ get2 None data (i + a - wkx) (j + b - wky) = None).
 Proof.
-  unfold wsum.
-  rewrite (loop2_xadd_none (fun a b => xscale (get2 0%Q kernel a b) (get2 None data (i + a - wkx) (j + b - wky)))).
+  unfold wsum. cbn [dadd dmul widen dnan snan dofZ ExactArith].
+  rewrite (loop2_oadd_none (fun a b => olift2 Qmult (get2 None kernel a b) (get2 None data (i + a - wkx) (j + b - wky)))).
   split.
   - intros [H|(a & b & Ha & Hb & Hn)]; [discriminate|].
-    apply zrange_In in Ha, Hb. apply xscale_none in Hn. exists a, b. repeat split; try lia; exact Hn.
+    apply zrange_In in Ha, Hb. apply olift2_none in Hn. exists a, b. repeat split; try lia; exact Hn.
   - intros (a & b & Ha & Hb & Hn). right. exists a, b.
-    repeat split; try (apply zrange_In; lia). apply xscale_none; exact Hn.
+    repeat split; try (apply zrange_In; lia). apply olift2_none; exact Hn.
 Qed.
+
+(* ---- every instance whose operations absorb NaN: a NaN under the window (or a NaN weight) gives NaN ---- *)
+Definition nan_absorbing (A : Arith) : Prop :=
+  (forall a b, disnan A a = true \/ disnan A b = true -> disnan A (dadd A a b) = true) /\
+  (forall a b, disnan A a = true \/ disnan A b = true -> disnan A (dmul A a b) = true) /\
+  (forall v, sisnan A v = true -> disnan A (widen A v) = true) /\
+  (forall d, disnan A d = true -> sisnan A (narrow A d) = true).
+
+Lemma exact_nan_absorbing qs : nan_absorbing (ExactArith qs).
+Proof.
+  repeat split.
+  - intros [a|] [b|] [H|H]; cbn in *; congruence.
+  - intros [a|] [b|] [H|H]; cbn in *; congruence.
+  - intros v H; exact H.
+  - intros d H; exact H.
+Qed.
+
+Section NanPropagates.
+  Variable A : Arith.
+  Hypothesis HA : nan_absorbing A.
+
+  Lemma fold_dadd_nan {X} (t : X -> T64 A) l : forall s,
+    disnan A s = true \/ (exists b, In b l /\ disnan A (t b) = true) ->
+    disnan A (fold_left (fun num b => dadd A num (t b)) l s) = true.
+  Proof.
+    destruct HA as (Hadd & _).
+    induction l as [|b l IH]; intros s H; cbn [fold_left].
+    - destruct H as [H|(b & [] & _)]; exact H.
+    - apply IH. destruct H as [H|(b' & [<-|Hin] & Hb)].
+      + left. apply Hadd. left; exact H.
+      + left. apply Hadd. right; exact Hb.
+      + right. exists b'. split; assumption.
+  Qed.
+
+  Lemma loop2_dadd_nan (t : Z -> Z -> T64 A) xs ys : forall s,
+    disnan A s = true \/ (exists a b, In a ys /\ In b xs /\ disnan A (t a b) = true) ->
+    disnan A (loop2 (fun num a b => dadd A num (t a b)) ys xs s) = true.
+  Proof.
+    unfold loop2. induction ys as [|a ys IH]; intros s H; cbn [fold_left].
+    - destruct H as [H|(a & b & [] & _)]; exact H.
+    - apply IH. destruct H as [H|(a' & b & [<-|Ha] & Hb & Hn)].
+      + left. apply (fold_dadd_nan (t a)). left; exact H.
+      + left. apply (fold_dadd_nan (t a)). right. exists b. split; assumption.
+      + right. exists a', b. repeat split; assumption.
+  Qed.
+
+  Lemma wsum_nan_propagates data kernel wkx wky i j :
+    (exists a b, 0 <= a < 2 * wkx + 1 /\ 0 <= b < 2 * wky + 1 /\
+                 (disnan A (get2 (dnan A) kernel a b) = true \/
+                  sisnan A (get2 (snan A) data (i + a - wkx) (j + b - wky)) = true)) ->
+    sisnan A (narrow A (wsum A data kernel wkx wky i j)) = true.
+  Proof.
+    intros (a & b & Ha & Hb & Hn). destruct HA as (_ & Hmul & Hw & Hnar).
+    apply Hnar. unfold wsum.
+    apply (loop2_dadd_nan (fun a b => dmul A (get2 (dnan A) kernel a b)
+                                            (widen A (get2 (snan A) data (i + a - wkx) (j + b - wky))))).
+    right. exists a, b. repeat split; try (apply zrange_In; lia).
+    apply Hmul. destruct Hn as [Hn|Hn]; [left; exact Hn|right; apply Hw; exact Hn].
+  Qed.
+End NanPropagates.
